@@ -55,7 +55,7 @@ check("C03", "exploration",
       "Each finished XR reconcile is judged from the API write log and the recorded function calls: a reconcile in which one of the four failure kinds occurred issued no write on any composed kind and left spec.resourceRefs unchanged; "
       "a successful compose deleted exactly the previously referenced, existing, not foreign-controlled resources absent from the final desired state (pipeline: last response; P&T: template names of the revision used); "
       "no reconcile ever deletes or label-strips a resource that is in its final desired state, deletes something the XR never referenced, or deletes a foreign-controlled object.",
-      TB + " The final desired state is taken from the scripted functions' recorded responses (the wire bytes the composer received). Not decided: foreign-controlled referenced resources (covered by C02's placements).",
+      TB + " The final desired state is taken from the scripted functions' recorded responses (the wire bytes the composer received). Control of composed resources passes to a stranger while reconciles run (a foreign-controlled resource is never deleted; an XR blocked by one is not judged for liveness).",
       "deterministic simulation with fault injection: seeded schedule/fault search, per-reconcile oracle over the recorded write log and function-call history",
       "§7 C03")
 
@@ -152,8 +152,11 @@ check("C09", "exploration",
       "Scripted pipeline steps emit connection details (keys user/pass/extra, later steps overriding earlier ones); the XRD key filter is drawn (none, one, two keys); Compositions with and without writeConnectionSecretsToNamespace; claims with and without writeConnectionSecretToRef; "
       "secrets pre-existing at the claim's secret name (absent, uncontrolled, controlled by a stranger, other secret type); a stranger taking the name an XR will publish under; API faults, lost replies, conflicts and crashes. "
       "Judged at every secret write a reconcile issues: an XR reconcile only touches the secret its XR names, and none if it names none; keys it adds or changes are allowed by the XRD filter and carry exactly the value the last function response of that very reconcile produced for this XR; "
-      "a claim reconcile only touches its claim's secret, only after reading its bound XR's secret and only if that XR controls it; every key it changes equals the source and the result contains all source keys; a write with identical content is a violation; stranger-controlled secrets stay byte-identical after every step.",
-      TB + " Patch-and-transform connection extraction (from composed resources' secrets) is not driven: values come from scripted functions. Keys already present in an adopted pre-existing secret are attributed to whoever put them there.",
+      "a claim reconcile only touches its claim's secret, only after reading its bound XR's secret and only if that XR controls it; every key it changes equals the source and the result contains all source keys; a write with identical content is a violation; stranger-controlled secrets stay byte-identical after every step. "
+      "Two runs in five are Resources-mode compositions whose templates extract connection details (fixed values, the same key from two templates, keys of the composed resource's own connection secret with and without a name of their own, field paths that exist, appear later or never exist), with an actor that publishes, rotates and loses the composed resources' connection secrets: "
+      "what such a composition produced is recomputed by a reference model of the extraction from the reconcile's own reads (revision, composed resources as applied, secrets as read); every write is judged against it and so is, at the end of every fault-free reconcile, completeness of the secret as that reconcile left it. "
+      "An uncontrolled secret of an ordinary type at the XR's secret name must not be written by a reconcile that read it as such.",
+      TB + " Keys already present in an adopted pre-existing secret are attributed to whoever put them there.",
       "deterministic simulation with fault injection: seeded schedule/fault/crash search; every secret write judged against the recorded function output and the read log",
       "§7 C09")
 
